@@ -50,6 +50,10 @@ RETS = {
     'void': dict(sig='void', gt=None),
     'int': dict(sig='int', gt='int', res='MI($ret.data) == MI((int)g_guest_ret)', rs=lambda: cs('rlbox::tainted<int, rlbox::vsbx>')),
     'long': dict(sig='long', gt='int', res='MI($ret.data) == MI((int)g_guest_ret)', rs=lambda: cs('rlbox::tainted<long, rlbox::vsbx>')),
+    # a function-pointer result comes back through the backend's *function-pointer* translation (abstract host address g_fn_host)
+    'fnptr': dict(sig='std::add_pointer_t<int(long)>', gt='unsigned int',
+                  res='((unsigned int)g_guest_ret == 0 ? (uintptr_t)$ret.data == 0 : ((unsigned long)$ret.data == g_fn_host && g_fn_unswizzles == 1 && g_fn_unswizzled == (unsigned int)g_guest_ret))',
+                  rs=lambda: cs('rlbox::tainted<int (*)(long), rlbox::vsbx>')),
     'ptr': dict(sig='int*', gt='unsigned int',
                 res='((unsigned int)g_guest_ret == 0 ? (uintptr_t)$ret.data == 0 : (V_IN($this->base0.slot, (uintptr_t)$ret.data) && ((unsigned int)g_guest_ret < V_SIZE[$this->base0.slot] ==> (uintptr_t)$ret.data == V_BASE[$this->base0.slot] + (unsigned int)g_guest_ret)))',
                 rs=lambda: cs('rlbox::tainted<int *, rlbox::vsbx>')),
@@ -67,7 +71,7 @@ def invoke_inst(pkinds, rkind, tier):
     ks = [kinds(i)[k] for i, k in enumerate(pkinds)]
     ret = RETS[rkind]
     fsig = '%s(%s)' % (ret['sig'], ', '.join(k['sig'] for k in ks))
-    ghost = PRE_GHOST + ' unsigned g_calls; unsigned long g_fn; long g_guest_ret; unsigned g_fn_swizzles; unsigned long g_fn_swizzled; unsigned int g_fn_repr; ' + ' '.join('long g_arg%d;' % i for i in range(n)) + '\n'
+    ghost = PRE_GHOST + ' unsigned g_calls; unsigned long g_fn; long g_guest_ret; unsigned g_fn_swizzles; unsigned long g_fn_swizzled; unsigned int g_fn_repr; unsigned g_fn_unswizzles; unsigned int g_fn_unswizzled; unsigned long g_fn_host; ' + ' '.join('long g_arg%d;' % i for i in range(n)) + '\n'
     # backend stub: records the call
     stub_ens = ['g_calls == __CPROVER_old(g_calls) + 1', 'g_fn == (unsigned long)$0'] + ['MI(g_arg%d) == MI(*$%d)' % (i, i + 1) for i in range(n)]
     if ret['gt']:
@@ -88,9 +92,9 @@ def invoke_inst(pkinds, rkind, tier):
     for i, k in enumerate(ks):
         if 'post' in k:
             cl.append(('arg%d_swizzled_as_function_pointer' % i, '__CPROVER_ensures(%s)' % k['post']))
-    cl.append(('frame', '__CPROVER_assigns(g_calls, g_fn, g_fn_swizzles, g_fn_swizzled%s)' % ''.join(', g_arg%d' % i for i in range(n))))
+    cl.append(('frame', '__CPROVER_assigns(g_calls, g_fn, g_fn_swizzles, g_fn_swizzled, g_fn_unswizzles, g_fn_unswizzled%s)' % ''.join(', g_arg%d' % i for i in range(n))))
     h = REGIONS + SB_DECL + ''.join(k['decl'] for k in ks)
-    h += '  g_fn_swizzles = 0; unsigned int in_fn_repr; g_fn_repr = in_fn_repr;\n'
+    h += '  g_fn_swizzles = 0; unsigned int in_fn_repr; g_fn_repr = in_fn_repr; g_fn_unswizzles = 0; unsigned long in_fn_host; __CPROVER_assume(in_fn_host != 0); g_fn_host = in_fn_host;\n'
     h += '  g_calls = 0; long in_guest_ret; g_guest_ret = in_guest_ret; uintptr_t in_fn;\n'
     args = ''.join(', &a%d' % i for i in range(n))
     if ret['gt']:
@@ -106,7 +110,11 @@ def invoke_inst(pkinds, rkind, tier):
               lambda fn, rec: fn.get('name') == 'impl_get_sandboxed_pointer' and 'IPF' in fn.get('mangledName', ''),
               '__CPROVER_requires($0 != 0)\n__CPROVER_ensures($ret == g_fn_repr && g_fn_swizzles == __CPROVER_old(g_fn_swizzles) + 1 && g_fn_swizzled == (uintptr_t)$0)\n'
               '__CPROVER_assigns(g_fn_swizzles, g_fn_swizzled)')
-    leaves = ['dynamic_check', stub, fn_swz, 'vsbx.impl_get_sandboxed_pointer', 'vsbx.impl_get_unsandboxed_pointer']
+    fn_unswz = ('vsbx.impl_get_unsandboxed_pointer<function pointer>(A_backend)',
+                lambda fn, rec: fn.get('name') == 'impl_get_unsandboxed_pointer' and 'IPF' in fn.get('mangledName', ''),
+                '__CPROVER_requires($0 != 0)\n__CPROVER_ensures((unsigned long)$ret == g_fn_host && g_fn_unswizzles == __CPROVER_old(g_fn_unswizzles) + 1 && g_fn_unswizzled == $0)\n'
+                '__CPROVER_assigns(g_fn_unswizzles, g_fn_unswizzled)')
+    leaves = ['dynamic_check', stub, fn_swz, fn_unswz, 'vsbx.impl_get_sandboxed_pointer', 'vsbx.impl_get_unsandboxed_pointer']
     return Inst(name, params, call, cl, h, leaves=leaves, prop=PROP, root_name='INTERNAL_invoke_with_func_ptr', tier=tier, pre=ghost,
                 replay={'kind': 'invoke', 'params': list(pkinds), 'ret': rkind}, note='signature %s with argument forms %s' % (fsig, pkinds), timeout=300)
 
@@ -160,6 +168,26 @@ def lookup_inst(fn_name, tier, be_cls='vsbx'):
                 note='std::map<std::string, void*> as an array view over abstract name ids (M-map, string keys); the caches are members of this sandbox object; backend %s' % be_cls)
 
 
+def addr_by_name_inst(tier):
+    """INTERNAL_get_sandbox_function_name (sandbox_function_address in by-name mode): the tainted address is what
+    internal_lookup_symbol of this instance returns for that name - the sandbox-side representation, never the host entry point"""
+    TF = cs('rlbox::tainted<int (*)(long), rlbox::vsbx>')
+    G = PRE_GHOST + ' unsigned g_ilookups; unsigned long g_ilookup_name, g_isym, g_ilookup_this;\n'
+    ilk = ('rlbox_sandbox::internal_lookup_symbol(contract)', _is('internal_lookup_symbol'),
+           '__CPROVER_ensures(g_ilookups == __CPROVER_old(g_ilookups) + 1 && g_ilookup_name == (unsigned long)$0 && g_ilookup_this == (unsigned long)$this && (unsigned long)$ret == g_isym)\n'
+           '__CPROVER_assigns(g_ilookups, g_ilookup_name, g_ilookup_this)')
+    lk = ('rlbox_sandbox::lookup_symbol(must not be used for taking an address)', _is('lookup_symbol'),
+          '__CPROVER_requires(0) /*@address_is_never_taken_from_the_invocation_lookup*/\n__CPROVER_ensures(1)\n__CPROVER_assigns()')
+    cl = [('fresh', '__CPROVER_requires(g_ilookups == 0)'),
+          ('address_is_the_sandbox_side_representation_for_that_name_in_this_instance',
+           '__CPROVER_ensures(g_ilookups == 1 && g_ilookup_name == (unsigned long)$0 && g_ilookup_this == (unsigned long)$this && (unsigned long)$ret.data == g_isym)'),
+          ('frame', '__CPROVER_assigns(g_ilookups, g_ilookup_name, g_ilookup_this)')]
+    h = ('  struct %s sb; uintptr_t in_name; unsigned long in_sym; g_isym = in_sym; g_ilookups = 0;\n'
+         '  struct %s r = $ROOT(&sb, (const char *)in_name);\n' % (SB, TF))
+    return Inst('c11_function_address_by_name', 'rlbox_sandbox<vsbx>& s, const char* n', 's.INTERNAL_get_sandbox_function_name<int(long)>(n);', cl, h, leaves=[ilk, lk], prop=PROP,
+                root_name='INTERNAL_get_sandbox_function_name', tier=tier, pre=G)
+
+
 def by_name_inst(tier):
     """INTERNAL_invoke_with_func_name: the address invoked is the one lookup_symbol of *this* instance returned for *that* name"""
     TL = cs('rlbox::tainted<int, rlbox::vsbx>')
@@ -182,13 +210,13 @@ def by_name_inst(tier):
 
 
 def units(tier):
-    fam = [([], 'void'), (['long_plain'], 'int'), (['long_tainted', 'ptr_tainted'], 'int'), (['fnptr_tainted', 'long_plain'], 'int'), (['long_opaque'], 'long'), (['nullptr', 'int_plain'], 'ptr'),
+    fam = [([], 'void'), (['long_plain'], 'int'), (['long_tainted', 'ptr_tainted'], 'int'), (['fnptr_tainted', 'long_plain'], 'int'), (['int_plain'], 'fnptr'), (['long_opaque'], 'long'), (['nullptr', 'int_plain'], 'ptr'),
            (['ulong_tainted', 'long_plain', 'ptr_tainted'], 'void')]
     if tier != 'quick':
         fam += [(['long_plain'] * 4, 'long'), (['long_tainted', 'ptr_tainted', 'int_plain', 'ulong_tainted', 'long_opaque', 'nullptr'], 'ptr'),
                 (['long_tainted'] * 8, 'int'), (['long_plain', 'long_tainted', 'long_opaque', 'ulong_tainted', 'int_plain', 'ptr_tainted', 'nullptr', 'long_plain', 'long_tainted', 'ptr_tainted', 'int_plain', 'long_opaque'], 'int')]
     insts = [invoke_inst(p, r, tier) for p, r in fam] + [fnptr_inst(tier), lookup_inst('lookup_symbol', tier), lookup_inst('internal_lookup_symbol', tier),
-                                                                  lookup_inst('lookup_symbol', tier, 'vsbx_il'), lookup_inst('internal_lookup_symbol', tier, 'vsbx_il'), by_name_inst(tier)]
+                                                                  lookup_inst('lookup_symbol', tier, 'vsbx_il'), lookup_inst('internal_lookup_symbol', tier, 'vsbx_il'), by_name_inst(tier), addr_by_name_inst(tier)]
     return [Unit('C11_invoke', insts)]
 
 
